@@ -150,6 +150,10 @@ class AsyncTask(futures.FutureBase):
     def _computed(self):
         try:
             if self._generator is not None:
+                # The with-blocks still open in the generator are left by close();
+                # their contexts must be active, so that each __exit__'s pause() is
+                # paired with a resume().
+                self._resume_contexts()
                 self._generator.close()
                 self._generator = None
             if _debug_options.COLLECT_PERF_STATS is True:
